@@ -7,6 +7,7 @@ mod gens;
 mod interp;
 mod lalr_ref;
 mod loader;
+mod lsdrv;
 mod pipeline;
 mod props;
 mod rx;
@@ -81,6 +82,9 @@ fn main() {
         "C25" => props::gen_props::C25,
         "C26" => props::gen_props::C26,
         "C33" => props::gen_props::C33,
+        "C27" => props::ls::C27,
+        "C30" => props::ls::C30,
+        "C34" => props::ls::C34,
         "C31" => props::small::C31,
         "C32" => props::small::C32,
     );
